@@ -72,6 +72,13 @@ func runC02(t *testing.T, seed uint64, m *Mask) *Report {
 			ops = append(ops, op)
 		}
 	}
+	// a message size limit, and one request above it: the call cannot be written and must still complete
+	if !hostile && r.Chance(0.2) {
+		opt.Limit = uint32(400 + r.Intn(1500))
+		if len(ops) > 0 && r.Chance(0.7) {
+			ops[r.Intn(len(ops))].Data = world.GenString(r, int(opt.Limit)+r.Intn(600), "abcdefghij")
+		}
+	}
 	shared := r.Chance(0.5)
 	fault := c02Faults[r.Intn(len(c02Faults))]
 	if hostile {
@@ -91,7 +98,7 @@ func runC02(t *testing.T, seed uint64, m *Mask) *Report {
 		fault = "none"
 	}
 	rep := &Report{NOps: len(ops), NFaults: nFaults}
-	rep.Cell = fmt.Sprintf("%s,hostile=%v,fault=%s,dial=%v", proto, hostile, fault, dial)
+	rep.Cell = fmt.Sprintf("%s,hostile=%v,fault=%s,dial=%v,limit=%d", proto, hostile, fault, dial, opt.Limit)
 
 	out := world.Run(t, opt, func(e *world.Env) {
 		for _, op := range ops {
